@@ -41,11 +41,11 @@ func explainInsertQuery(sb *strings.Builder, n *ast.InsertQuery, indent string, 
 
 	// FROM INFILE path comes first
 	if n.Infile != "" {
-		fmt.Fprintf(sb, "%s Literal \\'%s\\'\n", indent, n.Infile)
+		fmt.Fprintf(sb, "%s Literal \\'%s\\'\n", indent, escapeStringLiteral(n.Infile))
 	}
 	// COMPRESSION value comes next
 	if n.Compression != "" {
-		fmt.Fprintf(sb, "%s Literal \\'%s\\'\n", indent, n.Compression)
+		fmt.Fprintf(sb, "%s Literal \\'%s\\'\n", indent, escapeStringLiteral(n.Compression))
 	}
 
 	if n.Function != nil {
